@@ -244,6 +244,7 @@ type mwEntry struct {
 	dest   *types.Var // field the containing slice is finally stored into (Router.mws / Route.mws)
 	first  bool       // the containing slice is the first argument of append (prepended) rather than the appended tail
 	gKnown bool
+	destParam *ssa.Parameter // the list is extended through a pointer parameter (a helper); resolved at the helper's calls
 }
 
 func collectMwEntries(w *World) []mwEntry {
@@ -296,9 +297,49 @@ func collectMwEntries(w *World) []mwEntry {
 							if k, ok := constInt(ia.Index); ok {
 								e.index = k
 							}
-							e.dest, e.first = traceSliceDest(ia.X)
+							e.dest, e.first, e.destParam = traceSliceDest(ia.X)
 						}
 					}
+				}
+			}
+			if e.destParam != nil {
+				// one entry per call of the helper, with the call's arguments substituted for the helper's parameters
+				helper := e.destParam.Parent()
+				subst := func(v ssa.Value, c *ssa.Call) ssa.Value {
+					if p, ok := v.(*ssa.Parameter); ok && p.Parent() == helper {
+						if i := paramIndex(helper, p); i >= 0 && i < len(c.Call.Args) {
+							return c.Call.Args[i]
+						}
+					}
+					return v
+				}
+				ncalls := 0
+				for _, caller := range w.FoxFuncs() {
+					eachInstr(caller, func(in2 ssa.Instruction) {
+						c, ok := in2.(*ssa.Call)
+						if !ok || c.Call.StaticCallee() != helper {
+							return
+						}
+						ncalls++
+						e2 := e
+						e2.fn, e2.pos = caller, c.Pos()
+						if _, f, ok := fieldOfAddr(subst(e.destParam, c)); ok {
+							e2.dest = f
+						}
+						if e.m != nil {
+							e2.m = subst(e.m, c)
+						}
+						if e.scope != nil {
+							e2.scope = subst(e.scope, c)
+						}
+						if e.g != nil {
+							e2.g = subst(e.g, c)
+						}
+						out = append(out, e2)
+					})
+				}
+				if ncalls > 0 {
+					return
 				}
 			}
 			out = append(out, e)
@@ -310,10 +351,10 @@ func collectMwEntries(w *World) []mwEntry {
 
 // traceSliceDest follows an array (slice literal / varargs) to the append that consumes it and the field that receives
 // the result.
-func traceSliceDest(arr ssa.Value) (*types.Var, bool) {
+func traceSliceDest(arr ssa.Value) (*types.Var, bool, *ssa.Parameter) {
 	refs := arr.Referrers()
 	if refs == nil {
-		return nil, false
+		return nil, false, nil
 	}
 	for _, ref := range *refs {
 		sl, ok := ref.(*ssa.Slice)
@@ -334,7 +375,10 @@ func traceSliceDest(arr ssa.Value) (*types.Var, bool) {
 					for _, z := range *cr {
 						if st, ok := z.(*ssa.Store); ok && st.Val == ssa.Value(c) {
 							if _, f, ok := fieldOfAddr(st.Addr); ok {
-								return f, first
+								return f, first, nil
+							}
+							if p, ok := seeThrough(st.Addr).(*ssa.Parameter); ok {
+								return nil, first, p
 							}
 						}
 					}
@@ -342,7 +386,7 @@ func traceSliceDest(arr ssa.Value) (*types.Var, bool) {
 			}
 		}
 	}
-	return nil, false
+	return nil, false, nil
 }
 
 func checkC13Entries(w *World, r *Report) {
